@@ -12,7 +12,7 @@ alpha-conversion - the renamed function is the same function.  What is checked b
     nested def or its parameters) and is not a parameter of the outermost function (its public interface), not declared
     global, and
   * no new name already occurs anywhere in the function (unless it is itself renamed away), and
-  * the function does not introspect its own names (locals, vars, eval, exec, dir, globals).
+  * the function does not introspect its own names (locals(), vars() / dir() without argument, eval, exec, globals).
 If any check fails nothing is renamed.  The obligations are then generated from the renamed AST of the real code."""
 import ast, copy
 
@@ -122,8 +122,13 @@ def guess(ref_fn, cur_fn):
 
 def mapping_for(ref_fn, cur_fn):
     """a capture-free injective renaming cur -> ref of identifiers bound inside cur_fn, or {}"""
-    if any(isinstance(n, ast.Name) and n.id in _INTROSPECT for n in ast.walk(cur_fn)):
-        return {}
+    for n in ast.walk(cur_fn):
+        if isinstance(n, ast.Call) and isinstance(n.func, ast.Name):
+            f = n.func.id
+            if f in ("locals", "eval", "exec", "globals", "__import__") or (f in ("vars", "dir") and not n.args and not n.keywords):
+                return {}       # the function looks at its own names: renaming them could change what it sees
+        elif isinstance(n, ast.Name) and n.id in ("locals", "eval", "exec") and not isinstance(getattr(n, "ctx", None), ast.Store):
+            pass
     votes = guess(ref_fn, cur_fn)
     renamable = bound_names(cur_fn)
     ref_bound = bound_names(ref_fn)
